@@ -350,6 +350,13 @@ class Core:
                                              z3.ArraySort(z3.IntSort(), elem_sort))
         return self._empty_arrays[k]
 
+    def empty_array_kv(self, key_sort, elem_sort):
+        k = "kv_%s_%s" % (key_sort, elem_sort)
+        if k not in self._empty_arrays:
+            self._empty_arrays[k] = z3.Const("emptymap_%s" % k.replace(" ", "_").replace("(", "_").replace(")", "_"),
+                                             z3.ArraySort(key_sort, elem_sort))
+        return self._empty_arrays[k]
+
     def opt_none(self, ty):
         return Val(ty, self.S.sort(ty).none)
 
